@@ -81,6 +81,28 @@ def ob_pool(names, mode, n):
     return f
 
 
+def ob_optimize(names, weighted, mode):
+    """every objective call of a whole optimize() run (validation probes included), weighted multi-objective tasks too"""
+    def f():
+        st = stubs.Stream("np")
+        layers = [stubs.numpy_stream_layer(lambda: st)] + ([stubs.pool_layer()] if mode != "serial" else [])
+        with env(*layers):
+            vs = build_vars(names)
+            decls = leaf_decls(vs)
+            t = make_task(vs, (lambda x, i: [float(100 - i), 1.0]) if weighted else (lambda x, i: float(100 - i)),
+                          weights=[0.5, 0.5] if weighted else None)
+
+            def step(o, c):
+                o._population = [o._init_agent(sym_candidate(decls, prefix=f"x{c}.{j}.")) for j in range(len(o._population))]
+            opt = Scripted(M.BaseOptimizationConfig(population_size=2, fitness_error=None, max_cycles=1), step=step)
+            try:
+                opt.optimize(t, mode=mode, workers=2)
+            except ValueError:
+                pass
+            return args_ok(t.data["log"], decls)
+    return f
+
+
 def twin():
     def f():
         with env():
@@ -112,6 +134,11 @@ def obligations(tier):
     obs.append(Ob("init_agent_max[C+D3]", ob_init_agent(("C", "D3"), "base", "any", dname="max"), 300))
     for cname in init_agent_overrides():
         obs.append(Ob(f"override[{cname}]", ob_init_agent(("C", "D3"), cname, "any"), 300))
+    for names in (("C",), ("P3",), ("B2",), ("D3", "C")):
+        for weighted in (False, True):
+            obs.append(Ob(f"optimize[{'+'.join(names)},weighted={int(weighted)},serial]",
+                          ob_optimize(names, weighted, "serial"), 600))
+    obs.append(Ob("optimize[B2,weighted=1,thread]", ob_optimize(("B2",), True, "thread"), 600))
     for mode in ("thread", "process"):
         obs.append(Ob(f"pool[C,{mode},n=2]", ob_pool(("C",), mode, 2), 300))
         if th:
